@@ -2,17 +2,34 @@
 BASE_NOTE = ('Trusted base: CrossHair 0.0.110 + z3 5.1 for CONFIRMED verdicts; the environment model '
              'vf/env (NumPy subset, POSIX FS, json, tarfile) whose contracts are listed in DESIGN.md '
              'section 5 and validated against the installed NumPy/CPython by the scenario differential on '
-             'every run; bounds stated per obligation in the evidence file.')
-CHECKS = {
-    'C03': dict(
-        text='Every obligation is a CrossHair exploration of the real Array.__init__/append/iterappend/'
-             '_append/_checkarrayforappend/_update_len/__setitem__/truncate_array from an arbitrary valid '
-             'on-disk state with UNBOUNDED first-axis lengths, chunk lengths and truncate index; the '
-             'search tree is exhausted, so within the structural bounds (chunks per call, sequence length) '
-             'the result holds for all integers. One inductive step from an arbitrary valid state plus '
-             'bounded operation sequences.',
-        note=BASE_NOTE + ' Outside: more than F chunks per call, sequences longer than L, two handles '
-             'writing one directory, bit patterns of values (N-bits).'),
+             'every run; structural bounds are stated per obligation in the evidence file. ')
+E1 = ('CrossHair exploration of the real Darr source over the environment model; every branch decided by z3; '
+      'the search tree is exhausted, so within the stated structural bounds the verdict covers all integers '
+      '(lengths, offsets, indices, limits are unbounded symbolic variables). ')
+T = {
+ 'C03': ('one inductive step (append / iterappend / assign / truncate / mode change) from an arbitrary valid on-disk '
+         'state, plus bounded operation sequences; live handle, fresh handle and an independent decoder compared with the NumPy model.',
+         'Outside: more than F chunks per call, sequences longer than L, two handles on one directory, bit patterns (N-bits).'),
+ 'C04': ('ragged append / iterappend / truncate / getitem / iter_arrays / create / asraggedarray from an arbitrary valid state with K '
+         'pre-existing subarrays of unbounded (incl. zero) length, compared with a list-of-arrays model on live and fresh handles.',
+         'Outside: more than K pre-existing subarrays, more than F items per call.'),
+ 'C05': ('the C04 harness family asserted with an independent on-disk decoder of values/, indices/ and the top-level descriptor '
+         '(contiguity of index rows, last end = N, len/size/atom/numtype).', 'Outside: as C04.'),
+ 'C09': ('iterappend/append with a symbolic failure position and kind; write refusal modelled as a symbolic byte limit so that every '
+         'byte offset (chunk boundary +-1, mid-row, mid-element) is one variable; recovery path executed from source.',
+         'Outside: a second fault during recovery. Replay uses a child process under RLIMIT_FSIZE.'),
+ 'C10': ('ragged append/iterappend with symbolic failure position, kinds: iterable raises, wrong atom, unconvertible, index overflow, '
+         'write refusal on values / indices at any byte offset.', 'Outside: second fault during rollback; ilimit counterexamples cannot be replayed under RLIMIT_FSIZE (limit below README size).'),
+ 'C11': ('every mutating entry point x how mode r was obtained x with/without metadata x {Array, RaggedArray}, array length symbolic (>= 0) '
+         'so that the empty-array substitute path is a value; oracle = raises AND whole-directory snapshot identical; then succeeds in r+.',
+         'Outside: a second handle on the same directory.'),
+ 'C13': ('sequences of <= 2 metadata operations (8 kinds) from {no file, 1 key, 2 keys} with symbolic key selectors and 11 value kinds with symbolic int '
+         'payloads, against a dict model under JSON round trip; file exists iff non-empty; fresh handle agrees.',
+         'Outside: json rendering of NaN / non-ASCII (N-json); sequences longer than 2.'),
+ 'C17': ('symbolic crash point before any FS-mutating primitive + symbolic torn prefix of the in-flight write, for append / iterappend (incl. recovery path) / '
+         'truncate / metadata change on Array and RaggedArray; oracle = fresh open raises or shows before / after / original + whole chunks.',
+         'Outside: power loss and page-cache reordering (F-crash), a second crash, crashes inside creation. Replay: line-granular snapshots of the real run + synthesized torn files.'),
 }
+CHECKS = {k: dict(text=E1 + v[0], note=BASE_NOTE + v[1]) for k, v in T.items()}
 PENDING = 'check under construction in this session (see DESIGN.md section 4); not claimed until it runs clean'
 NOT_APPLICABLE = {f'C{i:02d}': PENDING for i in range(1, 21) if f'C{i:02d}' not in CHECKS}
